@@ -2013,9 +2013,10 @@ theorem unaryT_chain (tk : TT) (hn : Node) (h : headOf tk = some hn) {nx : Optio
     have := hloop f' { node := hn } [] rest (by omega) h1 h2
     simpa using this
 
-/-- the literal text a value carries: that of an integer literal, nothing otherwise -/
+/-- the literal text a value carries: that of an integer literal (accessors attached to it later do
+    not change it), nothing otherwise -/
 def litOf : Node → List Char
-  | .integer i none => Decimal.formatInt i
+  | .integer i _ => Decimal.formatInt i
   | _ => []
 
 /-- the value (`EV`) the parser's actions build for the node `n` -/
@@ -6010,6 +6011,101 @@ theorem stepOK_index5 (ok : OrOK o) (subs : List Node) (nx : Option Node) (hne :
 
 end
 
+/-! ## Stage 5: an integer literal with accessors — `(1).abs()`, `(-2)."k"` -/
+
+section
+variable {o : Oracles}
+
+theorem linkNodes_int (i : Int) (n : Node) (L : List Node) (hL : chainOf L = n.next) :
+    linkNodes (evOf (.integer i none)) ([n.setNext none] ++ L) = evOf (.integer i (some n)) := by
+  simp only [List.singleton_append, linkNodes, chainOf, hL, setNext_setNext, setNext_next]
+  rfl
+
+/-- after `(`: the literal, `)`, and its accessors -/
+theorem parenTail_lit_chain (i : Int) (n : Node) {tk0 : TT} {ts0 : List TT} {p q : Prop}
+    (hsp : ESpec o (.integer i none) tk0 ts0 p q)
+    {t : Tok} {x : List Char} {ts ctoks : List TT} {L : List Node}
+    (hacc : isAccessorStart t = true)
+    (hop : ∀ rest f, (hd rest).1 ≠ .lbrace → 16 * (ts.length + 1) + 1 ≤ f →
+      RunsV (StP o ((t, x) :: ts ++ rest)) (accessorOp o f t) (n.setNext none) (StE o rest))
+    (hheadT : HeadT ctoks) (hL : chainOf L = n.next)
+    (hloop : ∀ f head ops rest, 16 * ctoks.length + 2 ≤ f → isAccessorStart (hd rest).1 = false →
+      (hd rest).1 ≠ .lbrace →
+      RunsV (StE o (ctoks ++ rest)) (accessorLoop o f head ops) (linkNodes head (ops ++ L)) (StA o rest))
+    (F : Nat) (ctx : Ctx) (hctx : ctx ≠ .pred) (rest : List TT)
+    (hF : 16 * (ts0.length + ts.length + ctoks.length + 3) + 8 ≤ F + 2)
+    (ha : isAccessorStart (hd rest).1 = false) (hb : (hd rest).1 ≠ .lbrace) :
+    RunsV (StE o (tk0 :: ts0 ++ tRp :: (t, x) :: (ts ++ (ctoks ++ rest)))) (parenTail o (F + 3) ctx)
+      (.expr (evOf (.integer i (some n)))) (StA o rest) := by
+  rw [parenTail]
+  have h1 := atom_of_expr hsp F ctx (tRp :: (t, x) :: (ts ++ (ctoks ++ rest))) (.expr (evOf (.integer i none)) .rparen)
+    (StA o (tRp :: (t, x) :: (ts ++ (ctoks ++ rest)))) (by omega) ⟨rfl, by simp [hd, tRp], rfl, rfl⟩
+    (exprK_end F ctx hctx _ (tRp :: (t, x) :: (ts ++ (ctoks ++ rest))) (Or.inl rfl))
+  rstep h1
+  simp only [ne_eq, not_true_eq_false, ↓reduceIte]
+  rstep (consume_spec _ _)
+  rstep (peek_cons _ _)
+  simp only [hacc, ↓reduceIte]
+  have h2 := hop (ctoks ++ rest) (F + 2) (hheadT.lbrace hb) (by omega)
+  simp only [List.cons_append] at h2
+  rstep h2
+  have h3 := hloop (F + 2) (evOf (.integer i none)) [n.setNext none] rest (by omega) ha hb
+  rstep h3
+  exact RunsV.pure' (by rw [linkNodes_int i n L hL]) (fun _ h => h)
+
+end
+
+section
+variable {o : Oracles} (ok : OrOK o)
+include ok
+
+/-- an integer literal (of either sign) with accessors: printed `(i)` followed by the accessors -/
+theorem exprOK_intChain (i : Int) (n : Node) (hlit : ExprOK o (.integer i none)) (hs : StepOK o n)
+    (hc : ChainOK o n.next) : ExprOK o (.integer i (some n)) := by
+  obtain ⟨txt0, tk0, ts0, hpr0, hseg0, _, hsp⟩ := hlit false
+  obtain ⟨stxt, t, x, ts, c, cs, hw, hseg, hcs, hbc, hacc, hop⟩ := hs
+  obtain ⟨ctxt, ctoks, L, hw', hseg', hhead, hheadT, hL, hloop⟩ := hc
+  have htxt0 : txt0 = Decimal.formatInt i := by
+    have : Print.writeTo o.isPrint (.integer i none) false false = some (Decimal.formatInt i) := by
+      simp [Print.writeTo, Print.writeNext, Print.parenIf]
+    rw [this] at hpr0
+    injection hpr0 with h
+    exact h.symm
+  have hopd : OpdSpec o (.integer i (some n)) tLp (tk0 :: ts0 ++ tRp :: (t, x) :: (ts ++ ctoks)) := by
+    intro f rest hf ha hb
+    simp only [List.length_cons, List.length_append] at hf
+    obtain ⟨F, rfl⟩ : ∃ F, f = F + 4 := ⟨f - 4, by omega⟩
+    rw [parseUnaryT]
+    simp only [tLp, reduceCtorEq, ↓reduceIte]
+    simp only [List.cons_append, List.append_assoc]
+    rstep (consume_spec _ _)
+    rstep (parenTail_lit_chain i n hsp hacc hop hheadT hL hloop F .parenE (by decide) rest (by omega) ha hb)
+    exact RunsV.pure _
+  have hha : HeadA o (.integer i (some n)) tLp (tk0 :: ts0 ++ tRp :: (t, x) :: (ts ++ ctoks)) := by
+    intro f ctx rest w post hf ha hb hk
+    simp only [List.length_cons, List.length_append] at hf
+    obtain ⟨F, rfl⟩ : ∃ F, f = F + 3 := ⟨f - 3, by omega⟩
+    rw [parseAtom]
+    simp only [List.cons_append, List.append_assoc]
+    rstep (peek_cons _ _)
+    simp only [tLp, reduceCtorEq, ↓reduceIte]
+    rstep (consume_spec _ _)
+    rstep (parenTail_lit_chain i n hsp hacc hop hheadT hL hloop F .paren (by decide) rest (by omega) ha hb)
+    exact hk
+  intro wp
+  refine ⟨'(' :: (txt0 ++ ')' :: (stxt ++ ctxt)), tLp, tk0 :: ts0 ++ tRp :: (t, x) :: (ts ++ ctoks), ?_, ?_, rfl,
+    espec_unit hopd hha _ _⟩
+  · rw [Print.writeTo]
+    simp [Print.writeNext, hw true, hw', Print.parenIf, htxt0]
+  · have h1 := Seg.app o hseg hseg' hhead
+    have h2 := Seg.app_cons o (seg_rp o ok) (by rw [hcs] at h1; exact h1) trivial
+    have h3 := Seg.app_cons o hseg0.1 h2 brk_rp
+    have h4 := Seg2.app o (seg2_lp o ok) h3 (fun _ _ => trivial)
+    rw [hcs]
+    simpa using h4
+
+end
+
 /-! ## Stage 5: the class with general subscripts, `.time()` family, `.decimal()` -/
 
 mutual
@@ -6020,6 +6116,7 @@ mutual
     | .str s nx => noNulB s && okNext5 o nx
     | .var s nx => noNulB s && okNext5 o nx
     | .integer i none => litOK i
+    | .integer i (some n) => litOK i && okStep5 o n
     | .unary op (some x) none => isSign op && okExpr5 o x && notNumLit x
     | .binary op (some l) (some r) none => isArith op && okExpr5 o l && okExpr5 o r
     | _ => false
@@ -6103,6 +6200,7 @@ inductive ExprShape5 (o : Oracles) : Node → Prop
   | var (s : List Char) (nx : Option Node) (hs : NoNul s) (h : okNext5 o nx = true) : ExprShape5 o (.var s nx)
   | nat (i : Int) (h : intOK i = true) : ExprShape5 o (.integer i none)
   | neg (i : Int) (h : negOK i = true) : ExprShape5 o (.integer i none)
+  | intChain (i : Int) (n : Node) (hi : litOK i = true) (hn : okStep5 o n = true) : ExprShape5 o (.integer i (some n))
   | sign (op : UnOp) (x : Node) (hop : isSign op = true) (hx : okExpr5 o x = true) (hn : notNumLit x = true) :
       ExprShape5 o (.unary op (some x) none)
   | arith (op : BinOp) (l r : Node) (hop : isArith op = true) (hl : okExpr5 o l = true) (hr : okExpr5 o r = true) :
@@ -6123,6 +6221,7 @@ theorem okExpr5_cases {o : Oracles} {n : Node} (h : okExpr5 o n = true) : ExprSh
     by_cases hi : 0 ≤ i
     · exact .nat i (by simp only [intOK, Bool.and_eq_true, decide_eq_true_eq]; omega)
     · exact .neg i (by simp only [negOK, Bool.and_eq_true, decide_eq_true_eq]; omega)
+  · simp only [Bool.and_eq_true] at h; exact .intChain _ _ h.1 h.2
   · simp only [Bool.and_eq_true] at h; exact .sign _ _ h.1.1 h.1.2 h.2
   · simp only [Bool.and_eq_true] at h; exact .arith _ _ _ h.1.1 h.1.2 h.2
   · simp at h
@@ -6137,6 +6236,7 @@ theorem exprPrio5 {o : Oracles} {e : Node} (h : ExprShape5 o e) :
   | var => refine ⟨?_, ?_, ?_, ?_⟩ <;> simp [Print.priority, isBin, isAddLevel]
   | nat => refine ⟨?_, ?_, ?_, ?_⟩ <;> simp [Print.priority, isBin, isAddLevel]
   | neg => refine ⟨?_, ?_, ?_, ?_⟩ <;> simp [Print.priority, isBin, isAddLevel]
+  | intChain => refine ⟨?_, ?_, ?_, ?_⟩ <;> simp [Print.priority, isBin, isAddLevel]
   | sign op x hop _ _ =>
     cases op <;> simp [isSign] at hop <;>
       (refine ⟨?_, ?_, ?_, ?_⟩ <;> simp [Print.priority, Print.unPriority, isBin, isAddLevel])
@@ -6206,7 +6306,17 @@ theorem prio_facts5 {o : Oracles} {p : Node} (h : PredShape5 o p) :
 structure AllOK5 (o : Oracles) (k : Nat) : Prop where
   expr : ∀ n : Node, sizeOf n ≤ k → okExpr5 o n = true → ExprOK o n
   pred : ∀ p : Node, sizeOf p ≤ k → okPred5 o p = true → PredOK o p
+  step : ∀ n : Node, sizeOf n ≤ k → okStep5 o n = true → StepOK o n
   chain : ∀ nx : Option Node, sizeOf nx ≤ k → okNext5 o nx = true → ChainOK o nx
+
+theorem okStep5_next {o : Oracles} {n : Node} (h : okStep5 o n = true) : okNext5 o n.next = true := by
+  cases okStep5_cases h with
+  | simple _ _ hnx => exact hnx
+  | filter _ _ _ hnx => exact hnx
+  | index _ _ _ _ hnx => exact hnx
+  | time0 _ _ _ hnx => exact hnx
+  | time1 _ _ _ _ _ hnx => exact hnx
+  | decimal _ _ _ _ hnx => exact hnx
 
 theorem okSubs5_mem {o : Oracles} : ∀ (subs : List Node), okSubs5 o subs = true → ∀ s ∈ subs, okSub5 o s = true := by
   intro subs
@@ -6252,7 +6362,8 @@ theorem allOK5 : ∀ k, AllOK5 o k := by
   intro k
   induction k with
   | zero =>
-    refine ⟨?_, ?_, ?_⟩
+    refine ⟨?_, ?_, ?_, ?_⟩
+    · intro n hk _; have := sizeOf_node_pos n; omega
     · intro n hk _; have := sizeOf_node_pos n; omega
     · intro n hk _; have := sizeOf_node_pos n; omega
     · intro nx hk _
@@ -6260,7 +6371,7 @@ theorem allOK5 : ∀ k, AllOK5 o k := by
       | none => exact chain_nil
       | some n => simp at hk
   | succ k ih =>
-    refine ⟨?_, ?_, ?_⟩
+    refine ⟨?_, ?_, ?_, ?_⟩
     · intro n hk h
       cases okExpr5_cases h with
       | const c nx hc hnx =>
@@ -6277,6 +6388,15 @@ theorem allOK5 : ∀ k, AllOK5 o k := by
         exact exprOK_opd ok (opdOK_var ok s hs (ih.chain nx (by omega) hnx))
       | nat i hi => exact exprOK_opd ok (opdOK_int ok i hi)
       | neg i hi => exact exprOK_neg ok i hi
+      | intChain i n hi hn =>
+        simp only [Node.integer.sizeOf_spec, Option.some.sizeOf_spec] at hk
+        have hlt := sizeOf_next_lt n
+        have hlit : ExprOK o (.integer i none) := by
+          simp only [litOK, Bool.and_eq_true, decide_eq_true_eq] at hi
+          by_cases h0 : 0 ≤ i
+          · exact exprOK_opd ok (opdOK_int ok i (by simp only [intOK, Bool.and_eq_true, decide_eq_true_eq]; omega))
+          · exact exprOK_neg ok i (by simp only [negOK, Bool.and_eq_true, decide_eq_true_eq]; omega)
+        exact exprOK_intChain ok i n hlit (ih.step n (by omega) hn) (ih.chain n.next (by omega) (okStep5_next hn))
       | sign op x hop hx hn =>
         simp only [Node.unary.sizeOf_spec, Option.some.sizeOf_spec] at hk
         have hp := exprPrio5 (okExpr5_cases hx)
@@ -6341,37 +6461,34 @@ theorem allOK5 : ∀ k, AllOK5 o k := by
         have hpx := exprPrio5 (okExpr5_cases hx)
         exact predOK_regexE ok x pat fl (ih.expr x (by omega) hx) hp hfl hok hacc
           (by simp only [decide_eq_true_eq]; omega)
+    · intro n hk h
+      cases okStep5_cases h with
+      | simple _ hs hnx => exact stepOK_simple ok hs
+      | filter p nx' hp hnx =>
+        simp only [Node.unary.sizeOf_spec, Option.some.sizeOf_spec] at hk
+        exact stepOK_filter ok p nx' (ih.pred p (by omega) hp)
+      | index subs nx' hne hs hnx =>
+        simp only [Node.arrayIndex.sizeOf_spec] at hk
+        refine stepOK_index5 ok subs nx' hne ?_
+        intro s hsm
+        have hlt := List.sizeOf_lt_of_mem hsm
+        rcases okSub5_cases (okSubs5_mem subs hs s hsm) with ⟨l, rfl, hl⟩ | ⟨l, r, rfl, hl, hr⟩
+        · simp only [Node.binary.sizeOf_spec, Option.some.sizeOf_spec] at hlt
+          exact subOK_one ok l (ih.expr l (by omega) hl)
+        · simp only [Node.binary.sizeOf_spec, Option.some.sizeOf_spec] at hlt
+          exact subOK_two ok l r (ih.expr l (by omega) hl) (ih.expr r (by omega) hr)
+      | time0 op nx' hop hnx => exact stepOK_time0 ok op hop nx'
+      | time1 op p nx' hop hp hnx => exact stepOK_time1 ok op hop p hp nx'
+      | decimal l r nx' hd' hnx => exact stepOK_decimal ok l r nx' hd'
     · intro nx hk h
       cases nx with
       | none => exact chain_nil
       | some n =>
         simp only [Option.some.sizeOf_spec] at hk
-        cases okStep5_cases (by simpa [okNext5] using h) with
-        | simple _ hs hnx =>
-          have := sizeOf_next_lt n
-          exact chain_cons (stepOK_simple ok hs) (ih.chain n.next (by omega) hnx)
-        | filter p nx' hp hnx =>
-          simp only [Node.unary.sizeOf_spec, Option.some.sizeOf_spec] at hk
-          exact chain_cons (stepOK_filter ok p nx' (ih.pred p (by omega) hp)) (ih.chain nx' (by omega) hnx)
-        | index subs nx' hne hs hnx =>
-          simp only [Node.arrayIndex.sizeOf_spec] at hk
-          refine chain_cons (stepOK_index5 ok subs nx' hne ?_) (ih.chain nx' (by omega) hnx)
-          intro s hsm
-          have hlt := List.sizeOf_lt_of_mem hsm
-          rcases okSub5_cases (okSubs5_mem subs hs s hsm) with ⟨l, rfl, hl⟩ | ⟨l, r, rfl, hl, hr⟩
-          · simp only [Node.binary.sizeOf_spec, Option.some.sizeOf_spec] at hlt
-            exact subOK_one ok l (ih.expr l (by omega) hl)
-          · simp only [Node.binary.sizeOf_spec, Option.some.sizeOf_spec] at hlt
-            exact subOK_two ok l r (ih.expr l (by omega) hl) (ih.expr r (by omega) hr)
-        | time0 op nx' hop hnx =>
-          simp only [Node.unary.sizeOf_spec] at hk
-          exact chain_cons (stepOK_time0 ok op hop nx') (ih.chain nx' (by omega) hnx)
-        | time1 op p nx' hop hp hnx =>
-          simp only [Node.unary.sizeOf_spec] at hk
-          exact chain_cons (stepOK_time1 ok op hop p hp nx') (ih.chain nx' (by omega) hnx)
-        | decimal l r nx' hd' hnx =>
-          simp only [Node.binary.sizeOf_spec] at hk
-          exact chain_cons (stepOK_decimal ok l r nx' hd') (ih.chain nx' (by omega) hnx)
+        have hs : okStep5 o n = true := by simpa [okNext5] using h
+        have hlt := sizeOf_next_lt n
+        have hstep : StepOK o n := ih.step n (by omega) hs
+        exact chain_cons hstep (ih.chain n.next (by omega) (okStep5_next hs))
 
 end
 
